@@ -641,7 +641,7 @@ func runC14(c C14Case, cs *kit.CaseStats) error {
 			bb := kit.NewBlockBuilder(L)
 			bb.Absorb(before.v1, before.v2)
 			bb.DropEphemeral()
-			if !bb.Add(kit.Intent{Kind: "pay", V2: true, Who: who, To: (who + 1) % kit.NumActors, Pick: oi, Amt: 4}) || len(bb.V2Txns) == 0 {
+			if !bb.Add(kit.Intent{Kind: "pay", V2: true, Who: who, To: (who + 1) % kit.NumActors, Pick: oi, Amt: 4, Fee: op.Mut != 1}) || len(bb.V2Txns) == 0 {
 				continue
 			}
 			pay := bb.V2Txns[len(bb.V2Txns)-1]
@@ -709,7 +709,17 @@ func runC14(c C14Case, cs *kit.CaseStats) error {
 				continue
 			}
 			L = l2p
+			// the very first pool access after the reorg is a lookup by id of the
+			// payment the reverted block had confirmed; it must agree with the
+			// listing obtained right afterwards
+			_, lookedUp := node.CM.V2PoolTransaction(pay.ID())
 			pre := viewPool(node)
+			if _, listed := pre.ids2[pay.ID()]; listed != lookedUp {
+				return fmt.Errorf("%s: right after the reorg that reverted the block confirming %v, V2PoolTransaction reports present=%v, the listing obtained next says %v", where, pay.ID(), lookedUp, listed)
+			}
+			if lookedUp {
+				cs.Class("reverted-transaction-back-in-the-pool")
+			}
 			allKnown := true
 			for _, t := range set2 {
 				if _, ok := pre.ids2[t.ID()]; !ok {
